@@ -195,7 +195,8 @@ func doGo(goCommand string) {
 
 	tokens := strings.Split(goCommand, " ")
 	// if specified - search exactly this numer of millis
-	moveTimeMillis := -1
+	moveTimeMillis := 0
+	moveTimeGiven := false
 	blackMillisLeft := 100_000_000_000
 	whiteMillisLeft := 100_000_000_000
 	blackMillisIncrement := 0
@@ -220,6 +221,7 @@ out:
 			if err != nil {
 				return
 			}
+			moveTimeGiven = true
 			//ignore rest of params
 			break out
 		case uInfinite:
@@ -261,7 +263,7 @@ out:
 		}
 	}
 	var endtime time.Time
-	if moveTimeMillis != -1 {
+	if moveTimeGiven {
 		moveTimeMillis -= antiflagMillis
 		endtime = startTime.Add(time.Duration(moveTimeMillis * int(time.Millisecond)))
 	} else {
